@@ -519,7 +519,19 @@ impl<'de, R: Read<'de>> Deserializer<R> {
 
                     // Convert into a float if we underflow, or on `-0`.
                     if neg >= 0 {
-                        ParserNumber::F64(-(significand as f64))
+                        #[cfg(feature = "float_roundtrip")]
+                        {
+                            if self.single_precision {
+                                // Round once, straight to f32.
+                                ParserNumber::F64(-(significand as f32) as f64)
+                            } else {
+                                ParserNumber::F64(-(significand as f64))
+                            }
+                        }
+                        #[cfg(not(feature = "float_roundtrip"))]
+                        {
+                            ParserNumber::F64(-(significand as f64))
+                        }
                     } else {
                         ParserNumber::I64(neg)
                     }
